@@ -35,6 +35,13 @@ CalibStep ==
                 <<"CalibrationLeavesInputUntouched", E.input_unchanged /\ E.same_type /\ E.market_same>> >>)
     /\ ln' = ln + 1 /\ UNCHANGED <<tid, fin>>
 CalibRaised == More /\ E.e = "CalibRaised" /\ ln' = ln + 1 /\ UNCHANGED <<tid, fin, bad>>     \* "or raises": allowed
+\* the constraint declared for a parameter decides what an assignment / a construction accepts (values in tenths)
+Admissible(k, b, v) == IF k = "pos" THEN v >= b ELSE IF k = "spos" THEN v > b ELSE v < b
+DomainStep ==
+    /\ More /\ E.e = "Domain"
+    /\ IF E.accepted = Admissible(E.ckind, E.bound10, E.v10) THEN bad' = bad
+       ELSE PrintT(<<"VIOL", Id, ln, "ConstraintEnforced", H.kind>>) /\ bad' = bad + 1
+    /\ ln' = ln + 1 /\ UNCHANGED <<tid, fin>>
 RaiseStep ==
     /\ More /\ E.e = "Raise"
     /\ PrintT(<<"REJECT", Id, ln, "Raise", H.kind>>)
@@ -43,6 +50,6 @@ Finish ==
     /\ ~fin /\ ln = Len(T) + 1
     /\ IF bad = 0 THEN PrintT(<<"ACCEPT", Id>>) ELSE TRUE
     /\ fin' = TRUE /\ UNCHANGED <<tid, ln, bad>>
-TraceNext == RebuildStep \/ CalibStep \/ CalibRaised \/ RaiseStep \/ Finish
+TraceNext == RebuildStep \/ DomainStep \/ CalibStep \/ CalibRaised \/ RaiseStep \/ Finish
 TraceSpec == TraceInit /\ [][TraceNext]_tvars
 =============================================================================
